@@ -36,11 +36,15 @@ def run(tier, ev):
     ev.cov["bounds"] = {"node_labels": [1, 2, 3], "edge_ids": [0, 1, 2, 5, "e", "auto"], "missing_id": 9}
     ev.assumptions += ["small-scope: labels, depth and deviation bounds as stated"]
     v = histcheck.run_specs(PROP, "c02", specs(tier), ev)
+    v = list(v) + histcheck.nan_histories(PROP, "c02", "DiHypergraph", [oracles.directed_incidence], ev, depth=2 if tier == "quick" else 3)
     ev.sample({"history": ["xgi.DiHypergraph()", "H.add_edge(([1, 2], [3]))", "H.remove_node(1, strong=True)"]})
     return v
 
 
 def replay(case):
+    if case.get("kind") == "nan-history":
+        r = histcheck.run_nan_history(case["cls"], case["ops"], [oracles.directed_incidence])
+        return [f"{r[0]}: {r[1]}"] if r else []
     for s in specs("thorough"):
         if s.name == case["spec"]:
             return histcheck.replay_history(s, case)
